@@ -175,6 +175,8 @@ type c20SizeViol struct {
 	Panic   string       `json:"panic,omitempty"`
 	Harness string       `json:"harness"`
 	RawCase any          `json:"raw_case,omitempty"` // cri / exception-list case, for --replay
+	ExcKind string       `json:"exception_kind,omitempty"`
+	Rules   bool         `json:"rules_present"`
 }
 
 // the body of a record of length L for a decoder; position i (1-based) of the abstract record is byte i-1
@@ -784,14 +786,21 @@ type c20MiscStats struct {
 	rlExecuted, rlDrift                 int
 	skExecuted, skDrift                 int
 	ofsExecuted, ofsMustAdmit, ofsDrift int
+	seqExecuted, seqDelivered           int
+	perKey                              map[string]int
 	driftSample                         []string
 	pipelines                           int
 	viols                               []*c20SizeViol
 }
 
 func (st *c20MiscStats) add(v *c20SizeViol) {
+	k := fmt.Sprint(v.Kind, "/", v.Harness, "/", v.Decoder, "/", v.Rules)
 	st.mu.Lock()
-	if len(st.viols) < 100 {
+	if st.perKey == nil {
+		st.perKey = map[string]int{}
+	}
+	st.perKey[k]++
+	if st.perKey[k] <= 8 { // a flood of one class (e.g. a known finding) must not crowd out another
 		st.viols = append(st.viols, v)
 	}
 	st.mu.Unlock()
@@ -884,9 +893,12 @@ func c20RunCriGroup(id int, dec string, anti string, cases []*c20CriCase, st *c2
 // source's first counted record is refused, so "admitted" <=> recognised as exempt.
 
 type c20XlCase struct {
+	G      int     `json:"g"`
+	Rules  bool    `json:"rules"`
 	Excs   [][]int `json:"excs"` // per exception: check_source_name, matches record, matches source name
 	Exempt bool    `json:"exempt"`
 	Mex    bool    `json:"mex"`
+	Mspam  []int   `json:"mspam"`
 }
 
 func c20XlTokens(c *c20XlCase) (content, name string) {
@@ -913,7 +925,14 @@ func c20RunXlGroup(id int, cases []*c20XlCase, st *c20MiscStats) {
 		})
 	}
 	exc.Prepare()
-	s := &Settings{Decoder: "raw", Antispam: AntispamSettings{Threshold: 1, MaintenanceInterval: time.Hour, Exceptions: exc}}
+	s := &Settings{Decoder: "raw", Antispam: AntispamSettings{Threshold: c0.G, MaintenanceInterval: time.Hour, Exceptions: exc}}
+	if c0.Rules {
+		chk, err := doif.NewFromMap(map[string]any{"op": "contains", "field": "event", "values": []any{"~never~"}})
+		if err != nil {
+			panic(err)
+		}
+		s.Antispam.Rules = antispam.Rules{{Name: "c20never", Threshold: 3, DoIfChecker: chk}}
+	}
 	p, _, out := c20NewPipeline(fmt.Sprintf("c20xl%d", id), s)
 	p.Start()
 	defer p.Stop()
@@ -927,7 +946,7 @@ func c20RunXlGroup(id int, cases []*c20XlCase, st *c20MiscStats) {
 			mk := func(kind, want, got string) *c20SizeViol {
 				b, _ := json.Marshal(c)
 				return &c20SizeViol{Kind: kind, Decoder: "raw", Why: "exception list " + string(b), Input: content + " from " + name,
-					Want: want, Got: got, Harness: "pipeline-xlist", RawCase: c}
+					Want: want, Got: got, Harness: "pipeline-xlist", RawCase: c, ExcKind: "exception", Rules: c.Rules}
 			}
 			defer func() {
 				if r := recover(); r != nil {
@@ -946,7 +965,7 @@ func c20RunXlGroup(id int, cases []*c20XlCase, st *c20MiscStats) {
 			if c.Exempt {
 				st.xlExempt++
 			}
-			if refused == c.Mex {
+			if refused != (c.Mspam[0] == 1) {
 				st.xlDrift++
 			}
 			st.mu.Unlock()
@@ -1202,6 +1221,122 @@ func c20RunOfsGroup(id int, cases []*c20OfsCase, st *c20MiscStats) {
 	}
 }
 
+// ---------------------------------------------------------------- record sequences through one pooled event
+//
+// Pipelines with capacity 1 (every record reuses the same pooled event), cut-off with a mark field, one per real
+// decoder.  What is delivered for a record must be a function of that record and the settings alone: it equals what a
+// FRESH pipeline delivers for the same record, and a record within the limit never carries the mark.
+
+type c20SeqCase struct {
+	Dec   string `json:"dec"` // class: json, raw, cri, adding
+	Overs []bool `json:"overs"`
+}
+
+var c20SeqDecoders = map[string][]string{"json": {"json"}, "raw": {"raw"}, "cri": {"cri"},
+	"adding": {"nginx_error", "syslog_rfc3164", "csv", "postgres"}}
+
+const c20SeqLimit = 150
+
+func c20SeqRecord(dec string, over bool, variant int) string {
+	tail := fmt.Sprintf("short message %d", variant)
+	if over {
+		tail = fmt.Sprintf("long message %d ", variant) + strings.Repeat("x", 300)
+	}
+	switch dec {
+	case "json":
+		return fmt.Sprintf(`{"v%d":"%s"}`, variant, tail) + "\n"
+	case "cri":
+		return "2016-10-06T00:17:09.669794202Z stdout F " + tail + "\n"
+	case "nginx_error":
+		return "2022/08/17 10:49:27 [error] 2725122#2725122: *792412315 " + tail + "\n"
+	case "syslog_rfc3164":
+		return "<34>Oct 11 22:14:15 mymachine.example.com myproc[10]: " + tail + "\n"
+	case "csv":
+		if over {
+			return "a,b," + tail + "\n"
+		}
+		return fmt.Sprintf("a%d,%s\n", variant, tail) // one column fewer than the long record
+	case "postgres":
+		return "2021-06-22 16:24:27 GMT [7291] => [3-1] client=test_client,db=test_db,user=test_user LOG:  " + tail + "\n"
+	}
+	return tail + "\n"
+}
+
+func c20SeqPipeline(name, dec string) (*Pipeline, *c20Output) {
+	s := &Settings{Decoder: dec, MaxEventSize: c20SeqLimit, CutOffEventByLimit: true, CutOffEventByLimitField: c20MarkField,
+		Antispam: AntispamSettings{Threshold: DefaultAntispamThreshold, MaintenanceInterval: time.Hour}}
+	p, _, out := c20NewPipeline(name, s)
+	p.settings.Capacity = 1
+	p.eventPool = newEventPool(1, 256)
+	out.record = true
+	p.Start()
+	return p, out
+}
+
+// deliver one record; "" = refused
+func c20SeqSend(p *Pipeline, out *c20Output, rec string, off int64) (string, bool, error) {
+	seq := p.In(SourceID(3), "c20seq", Offsets{current: off}, []byte(rec), false, nil)
+	if seq == EventSeqIDError {
+		return "", false, nil
+	}
+	select {
+	case d := <-out.ch:
+		return d.doc, d.hasMark, nil
+	case <-time.After(30 * time.Second):
+		return "", false, errors.New("nothing delivered after 30s")
+	}
+}
+
+func c20RunSeq(id int, c *c20SeqCase, st *c20MiscStats) {
+	for di, dec := range c20SeqDecoders[c.Dec] {
+		func() {
+			mk := func(kind, input, want, got string) *c20SizeViol {
+				b, _ := json.Marshal(c)
+				return &c20SizeViol{Kind: kind, Decoder: dec, Why: "record sequence " + string(b), Input: input, Want: want, Got: got,
+					Harness: "pipeline-seq", RawCase: c}
+			}
+			defer func() {
+				if r := recover(); r != nil {
+					v := mk("panic", "", "", "")
+					v.Panic = fmt.Sprint(r)
+					st.add(v)
+				}
+			}()
+			p, out := c20SeqPipeline(fmt.Sprintf("c20seq%d_%d", id, di), dec)
+			defer p.Stop()
+			st.mu.Lock()
+			st.pipelines++
+			st.mu.Unlock()
+			for i, over := range c.Overs {
+				rec := c20SeqRecord(dec, over, i+1)
+				// reference: the same record as the only record of a fresh pipeline
+				rp, rout := c20SeqPipeline(fmt.Sprintf("c20seqref%d_%d_%d", id, di, i), dec)
+				wantDoc, _, rerr := c20SeqSend(rp, rout, rec, 1)
+				rp.Stop()
+				gotDoc, hasMark, err := c20SeqSend(p, out, rec, int64(i+1))
+				st.mu.Lock()
+				st.seqExecuted++
+				st.mu.Unlock()
+				if err != nil || rerr != nil {
+					st.add(mk("not_delivered", rec, "event at the output", fmt.Sprint(err, rerr)))
+					return
+				}
+				if gotDoc != wantDoc {
+					st.add(mk("bytes_differ", rec, wantDoc, gotDoc))
+				}
+				if gotDoc != "" && hasMark != over {
+					st.add(mk("mark_differ", rec, fmt.Sprint(over), fmt.Sprint(hasMark)))
+				}
+				if gotDoc != "" {
+					st.mu.Lock()
+					st.seqDelivered++
+					st.mu.Unlock()
+				}
+			}
+		}()
+	}
+}
+
 // ---------------------------------------------------------------- driver
 
 func TestVerifC20(t *testing.T) {
@@ -1227,6 +1362,7 @@ func TestVerifC20(t *testing.T) {
 	rlGroups := map[string][]*c20RlCase{}
 	var rlOrder []string
 	skGroups := map[bool][]*c20SkCase{}
+	var seqCases []*c20SeqCase
 	ofsGroups := map[string][]*c20OfsCase{}
 	var ofsOrder []string
 	sc := bufio.NewScanner(f)
@@ -1257,6 +1393,12 @@ func TestVerifC20(t *testing.T) {
 				rlOrder = append(rlOrder, k)
 			}
 			rlGroups[k] = append(rlGroups[k], c)
+		} else if head.Part == "seq" {
+			c := &c20SeqCase{}
+			if err := json.Unmarshal(sc.Bytes(), c); err != nil {
+				t.Fatalf("bad sequence case: %v", err)
+			}
+			seqCases = append(seqCases, c)
 		} else if head.Part == "offs" {
 			c := &c20OfsCase{}
 			if err := json.Unmarshal(sc.Bytes(), c); err != nil {
@@ -1278,7 +1420,7 @@ func TestVerifC20(t *testing.T) {
 			if err := json.Unmarshal(sc.Bytes(), c); err != nil {
 				t.Fatalf("bad exception-list case: %v", err)
 			}
-			k := ""
+			k := fmt.Sprint(c.G, "/", c.Rules, "/")
 			for _, e := range c.Excs {
 				k += fmt.Sprint(e[0])
 			}
@@ -1352,6 +1494,16 @@ func TestVerifC20(t *testing.T) {
 				c20RunCriGroup(id, dec, anti, criGroups[anti], mst)
 			}(id, dec, anti)
 		}
+	}
+	for _, c := range seqCases {
+		id++
+		wg.Add(1)
+		sem <- struct{}{}
+		go func(id int, c *c20SeqCase) {
+			defer wg.Done()
+			defer func() { <-sem }()
+			c20RunSeq(id, c, mst)
+		}(id, c)
 	}
 	for _, k := range ofsOrder {
 		id++
@@ -1438,7 +1590,7 @@ func TestVerifC20(t *testing.T) {
 		"misc": map[string]interface{}{"cri_executed": mst.criExecuted, "cri_delivered": mst.criDelivered, "xlist_executed": mst.xlExecuted,
 			"xlist_exempt": mst.xlExempt, "xlist_drift": mst.xlDrift, "rlist_in_calls": mst.rlExecuted, "rlist_drift": mst.rlDrift,
 			"skey_in_calls": mst.skExecuted, "skey_drift": mst.skDrift,
-			"offsets_in_calls": mst.ofsExecuted, "offsets_must_admit": mst.ofsMustAdmit, "offsets_drift": mst.ofsDrift, "drift_samples": mst.driftSample, "pipelines": mst.pipelines, "violations": mst.viols},
+			"seq_records": mst.seqExecuted, "seq_delivered": mst.seqDelivered, "offsets_in_calls": mst.ofsExecuted, "offsets_must_admit": mst.ofsMustAdmit, "offsets_drift": mst.ofsDrift, "drift_samples": mst.driftSample, "pipelines": mst.pipelines, "violations": mst.viols},
 		"sched": map[string]interface{}{"executed": cst.executed, "steps": cst.steps, "pipelines": cst.groups, "banned_in_first_burst": cst.sawBan,
 			"banned_then_admitted": cst.bannedThenAdmit, "interval_ms": c20SchedInterval.Milliseconds(), "violations": cv, "violation_counts": cst.counts},
 		"size": map[string]interface{}{"executed": sst.executed, "delivered": sst.delivered, "refused": sst.refused,
